@@ -18,7 +18,15 @@ if ! git apply "$seed/patch.diff" 2>/tmp/seedchk.$$.err; then
 fi
 rm -f /tmp/seedchk.$$.err
 echo "APPLY: ok ($(git diff HEAD --stat | tail -1))"
-if go build ./... >/dev/null 2>&1 && go test -vet=off -count=1 ./... >/tmp/seedchk.$$.suite 2>&1; then echo "SUITE with change: PASS"; else echo "SUITE with change: FAIL"; grep -m3 -- "--- FAIL\|FAIL" /tmp/seedchk.$$.suite; fi
+suite_ok=0; note=""
+for attempt in 1 2 3 4; do
+  if go build ./... >/dev/null 2>&1 && go test -vet=off -count=1 ./... >/tmp/seedchk.$$.suite 2>&1; then suite_ok=1; break; fi
+  # TestConcurrent/DeleteRollover and /Delete are flaky on the unchanged tree too (they delete the same offset twice when the publisher is slow): retry those only
+  others=$(grep -- "--- FAIL" /tmp/seedchk.$$.suite | grep -v "TestConcurrent (\|TestConcurrent/DeleteRollover\|TestConcurrent/Delete " | head -1)
+  [ -n "$others" ] && break
+  note=" (after retrying the flaky TestConcurrent/Delete* $attempt x)"
+done
+if [ $suite_ok = 1 ]; then echo "SUITE with change: PASS$note"; else echo "SUITE with change: FAIL"; grep -m3 -- "--- FAIL\|FAIL" /tmp/seedchk.$$.suite; fi
 rm -f /tmp/seedchk.$$.suite
 demos=$(ls "$seed"/*_test.go 2>/dev/null)
 for d in $demos; do cp "$d" "$wt/zz_seed_$(basename $d)"; done
